@@ -810,7 +810,8 @@ def _r4_r6_r7(ctx, pkg):
                                   "the option value is cut at every ':' and the pieces are read by index [0], [1]: an expression containing ':' (a C conditional) is silently truncated",
                                   expected="split(':', 1)", found=ast.unparse(c))
     # ode-modifier: tuple unpacking raises on a surplus piece (not silent)
-    unp = [n for n in ast.walk(ih) if isinstance(n, ast.Assign) and isinstance(n.targets[0], ast.Tuple) and re.fullmatch(r"\w+\.split\(':'\)", ast.unparse(n.value))]
+    unp = [n for lp in _option_loops(ih, org, "ode-modifier") for n in ast.walk(lp)
+           if isinstance(n, ast.Assign) and isinstance(n.targets[0], ast.Tuple) and re.fullmatch(r"\w+\.split\(':'\)", ast.unparse(n.value))]
     ctx.check(len(unp) == 1 and len(unp[0].targets[0].elts) == 2, "R6", "--ode-modifier: key/value unpacking", (INIT, unp[0].lineno if unp else ih.lineno),
               "`key, value = om.split(':')` raises on a surplus ':' instead of dropping text")
     ctx.floor("R6", "free-text splits", n6, 1, (INIT, ih.lineno))
